@@ -16,6 +16,13 @@ type WOpts struct {
 	Fake        bool // allow symbols/imports outside the fixture universe
 	KeyPerm     bool // render YAML mappings in a drawn key order
 	DotPkg      bool // allow `"."`-package multi-segment values (push goimports into its environment scan)
+	Storm       bool // 1-4 additional node-kind confusions anywhere in any file
+	Big         bool // larger configurations
+}
+
+type postMut struct {
+	file int // -1: last file
+	m    gen.YMut
 }
 
 func seed64(src *choice.Src, label string) uint64 {
@@ -30,7 +37,9 @@ func GenWorld(src *choice.Src, o WOpts) *World { return genWorldKeyed(src, o, 0)
 func genWorldKeyed(src *choice.Src, o WOpts, keySeed uint64) *World {
 	w := &World{OutKind: "file"}
 	gopts := gen.Opts{MaxParams: 6, MaxSvcs: 6, MaxDecs: 3}
-	if src.Chance("small", 1, 4) {
+	if o.Big {
+		gopts = gen.Opts{MaxParams: 14, MaxSvcs: 16, MaxDecs: 5}
+	} else if src.Chance("small", 1, 4) {
 		gopts.MaxParams, gopts.MaxSvcs, gopts.MaxDecs = 2, 2, 1
 	}
 	cfg := gen.GenCfg(src, gopts)
@@ -41,7 +50,7 @@ func genWorldKeyed(src *choice.Src, o WOpts, keySeed uint64) *World {
 	if o.Fake && src.Chance("fake", 1, 2) {
 		gen.AddFakeWorld(src, cfg, o.DotPkg)
 	}
-	var post []gen.YMut
+	var post []postMut
 	if o.Defects && src.Chance("defect", 1, 2) {
 		n := src.Range("ndefects", 1, 3)
 		for i := 0; i < n; i++ {
@@ -54,8 +63,23 @@ func genWorldKeyed(src *choice.Src, o WOpts, keySeed uint64) *World {
 				}
 			}
 			if m != nil {
-				post = append(post, m)
+				post = append(post, postMut{-1, m})
 			}
+		}
+	}
+	if o.Storm {
+		n := src.Range("storm.n", 1, 4)
+		for i := 0; i < n; i++ {
+			m := gen.YMut(gen.KindConfusion)
+			if src.Chance("storm.dup", 1, 6) {
+				m = gen.DupKey
+			}
+			post = append(post, postMut{src.Draw("storm.file", 4), m})
+		}
+		if w.Class == "valid" {
+			w.Class = "storm"
+		} else {
+			w.Class += "+storm"
 		}
 	}
 	w.Cfg = cfg
@@ -95,7 +119,7 @@ func genWorldKeyed(src *choice.Src, o WOpts, keySeed uint64) *World {
 }
 
 // layoutWorld splits cfg over files and draws the -i patterns.
-func layoutWorld(src *choice.Src, w *World, cfg *gen.Cfg, o WOpts, post []gen.YMut, keySeed uint64) {
+func layoutWorld(src *choice.Src, w *World, cfg *gen.Cfg, o WOpts, post []postMut, keySeed uint64) {
 	nfiles := src.Range("nfiles", 1, 4)
 	parts := gen.Split(src, cfg, nfiles)
 	var perm func(n int) []int
@@ -109,9 +133,9 @@ func layoutWorld(src *choice.Src, w *World, cfg *gen.Cfg, o WOpts, post []gen.YM
 	contents := make([]string, len(parts))
 	for i, p := range parts {
 		y := p.Y()
-		if i == len(parts)-1 {
-			for _, m := range post {
-				m(src, y)
+		for _, pm := range post {
+			if (pm.file == -1 && i == len(parts)-1) || (pm.file >= 0 && pm.file%len(parts) == i) {
+				pm.m(src, y)
 			}
 		}
 		contents[i] = y.Render(perm)
